@@ -52,6 +52,11 @@ def compare(units, le, asz, fmt):
         files = [(bytes(f.name), f.dir_index) for f in hd['file_entry']][:len(h['files'])]
         if files != [(f[0], f[1]) for f in h['files']]:
             return 'unit at %d: file_entry %r, encoded %r' % (off, files, h['files'])
+        if h.get('entry_formats') and any(c == 0x2001 for c, _f in h['entry_formats'][1]):
+            got_src = [bytes(f['DW_LNCT_LLVM_source']) for f in hd['file_names']]
+            want_src = [b'inc' if f[0] == b'a.c' else b'/usr/src' for f in h['files']]
+            if got_src != want_src:
+                return 'unit at %d: the vendor string member of the file entries is %r, encoded %r' % (off, got_src, want_src)
         rows = [e.state for e in lp.get_entries() if e.state is not None]
         want = L.machine(h, ins)
         got = [dict(address=s.address, op_index=s.op_index, file=s.file, line=s.line, column=s.column,
